@@ -287,10 +287,11 @@ class IpaddrOrHostname(RegularExpressionConversion):
         # We allow underscores in hostnames although this is considered
         # illegal according to RFC1034.
         # Addition: IPv6 addresses are now also accepted
-        expr = (r"(^(\d|[01]?\d\d|2[0-4]\d|25[0-5])\."  # ipaddr
-                r"(\d|[01]?\d\d|2[0-4]\d|25[0-5])\."    # ipaddr cont'd
-                r"(\d|[01]?\d\d|2[0-4]\d|25[0-5])\."    # ipaddr cont'd
-                r"(\d|[01]?\d\d|2[0-4]\d|25[0-5])$)"    # ipaddr cont'd
+        # (ASCII digits only: \d would also match other Unicode digits)
+        expr = (r"(^([0-9]|[01]?[0-9][0-9]|2[0-4][0-9]|25[0-5])\."
+                r"([0-9]|[01]?[0-9][0-9]|2[0-4][0-9]|25[0-5])\."
+                r"([0-9]|[01]?[0-9][0-9]|2[0-4][0-9]|25[0-5])\."
+                r"([0-9]|[01]?[0-9][0-9]|2[0-4][0-9]|25[0-5])$)"  # ipaddr
                 r"|([A-Za-z_][-A-Za-z0-9_.]*[-A-Za-z0-9_])"  # or hostname
                 # or superset of IPv6 addresses (requiring at least one colon)
                 r"|([0-9A-Fa-f:.]+:[0-9A-Fa-f:.]*)"
